@@ -22,6 +22,7 @@
 -/
 import QKV.Lemmas.AutoFx
 import QKV.Lemmas.TensorQ
+import QKV.Model.AutoFxArg
 namespace QKV.Props.C05
 open QKV QKV.Tn QKV.BT QKV.AF
 
@@ -570,6 +571,327 @@ theorem C05_linear_export_is_one_call (c : Fl) (o : QLObj) (ch : Bool) (shape : 
     (qlExport c o ch shape w).1.attrs = o.attrs ∧ (qlExport c o ch shape w).2 = qlAuto c (o.attrs.cfg ch) shape w :=
   ⟨rfl, rfl⟩
 
+/-! ### the ARGUMENT level of `scale_axis`: axes counted from the end (strengthening round, seed C05-12)
+
+  `QBAttrs.sa` / `QLAttrs.sa` above are RESOLVED axes (naturals).  The objects hold what the user passed — ints that
+  may be negative, "counted from the end" — and every call resolves it against the rank of ITS tensor
+  (`qbAxis` / `qlAxis`, Model/AutoFxArg.lean: `_normalize_scale_axis` at the head of `_get_scaling_axis` and of
+  `_get_scale_mean`).  Proved here: what a call makes of the argument depends only on the NORMALISED axes, the
+  normalisation of a valid axis is `a mod rank`, so `k - rank` and `k` give the same call (ints, lists, mixed lists,
+  with and without `elements_per_scale`, both classes); a resolvable call IS `qbAuto` / `qlAuto` of the resolved
+  attributes, so every clause theorem above holds at the argument level; the argument is never written back, and
+  any history (rank changing between calls, axes re-assigned) equals fresh objects called once each.
+-/
+
+/-- `_normalize_scale_axis` on a valid axis (`-rank ≤ a < rank`) is the numpy convention `a mod rank`: a valid index -/
+theorem C05_norm_axis_mod (len : ℕ) (a : ℤ) (h1 : -(len : ℤ) ≤ a) (h2 : a < len) :
+    normAxis len a = a % (len : ℤ) ∧ 0 ≤ normAxis len a ∧ normAxis len a < len := by
+  unfold normAxis
+  split_ifs with h
+  · refine ⟨?_, by omega, by omega⟩
+    have e : (a + (len : ℤ)) % (len : ℤ) = a % (len : ℤ) := by simp
+    rw [← e, Int.emod_eq_of_lt (by omega) (by omega)]
+  · exact ⟨(Int.emod_eq_of_lt (by omega) h2).symm, by omega, h2⟩
+
+/-- the axis `k` counted from the end (`k - rank`) normalises to `k`, and so does `k` itself -/
+theorem C05_norm_from_end (len k : ℕ) (hk : k < len) :
+    normAxis len ((k : ℤ) - len) = k ∧ normAxis len (k : ℤ) = k := by
+  unfold normAxis
+  constructor
+  · rw [if_pos (by omega)]; omega
+  · rw [if_neg (by omega)]
+
+private theorem axisOfArg_many_norm (len : ℕ) (l l' : List ℤ) (h : l.map (normAxis len) = l'.map (normAxis len)) :
+    axisOfArg len (.many l) = axisOfArg len (.many l') ∧
+    AxisArg.inRange len (.many l) = AxisArg.inRange len (.many l') := by
+  have e : ∀ t : List ℤ,
+      t.filterMap (fun a => if normAxis len a < 0 then Option.none else some (normAxis len a).toNat)
+        = (t.map (normAxis len)).filterMap (fun b => if b < 0 then Option.none else some b.toNat) := by
+    intro t; rw [List.filterMap_map]; rfl
+  have e2 : ∀ t : List ℤ, (t.all fun a => decide (0 ≤ normAxis len a))
+        = (t.map (normAxis len)).all (fun b => decide (0 ≤ b)) := by
+    intro t; rw [List.all_map]; rfl
+  constructor
+  · simp only [axisOfArg]; rw [e l, e l', h]
+  · simp only [AxisArg.inRange]; rw [e2 l, e2 l', h]
+
+/-- what a call makes of a LIST `scale_axis` depends only on the normalised axes: two lists whose entries normalise
+    to the same axes (any mix of from-the-start / from-the-end spellings) are the same argument, for both classes,
+    with and without `elements_per_scale` -/
+theorem C05_axis_list_depends_on_normalised (len : ℕ) (l l' : List ℤ)
+    (h : l.map (normAxis len) = l'.map (normAxis len)) (eps : EpsSpec) :
+    qbAxis len (.many l) eps = qbAxis len (.many l') eps ∧ qlAxis len (.many l) = qlAxis len (.many l') := by
+  obtain ⟨h1, h2⟩ := axisOfArg_many_norm len l l' h
+  exact ⟨by simp only [qbAxis, h1, h2], h1⟩
+
+/-- the same for an INT `scale_axis` -/
+theorem C05_axis_int_depends_on_normalised (len : ℕ) (a a' : ℤ) (h : normAxis len a = normAxis len a')
+    (eps : EpsSpec) :
+    qbAxis len (.one a) eps = qbAxis len (.one a') eps ∧ qlAxis len (.one a) = qlAxis len (.one a') := by
+  have h1 : axisOfArg len (.one a) = axisOfArg len (.one a') := by simp only [axisOfArg, h]
+  have h2 : AxisArg.inRange len (.one a) = AxisArg.inRange len (.one a') := by simp only [AxisArg.inRange, h]
+  exact ⟨by simp only [qbAxis, h1, h2], h1⟩
+
+/-- an int axis counted from the end IS the axis counted from the start: both resolve to `.one k` (quantized_linear
+    at every rank, quantized_bits at rank > 1 — at rank ≤ 1 it is not consulted at all) -/
+theorem C05_axis_from_end (len k : ℕ) (hk : k < len) (eps : EpsSpec) :
+    qlAxis len (.one ((k : ℤ) - len)) = .ok (.one k) ∧ qlAxis len (.one (k : ℤ)) = .ok (.one k) ∧
+    qbAxis len (.one ((k : ℤ) - len)) eps = qbAxis len (.one (k : ℤ)) eps ∧
+    (¬ len ≤ 1 → qbAxis len (.one ((k : ℤ) - len)) eps = .ok (.one k)) := by
+  obtain ⟨n1, n2⟩ := C05_norm_from_end len k hk
+  have q1 : qlAxis len (.one ((k : ℤ) - len)) = .ok (.one k) := by
+    simp only [qlAxis, axisOfArg, n1]; rw [if_neg (by omega)]; simp
+  have q2 : qlAxis len (.one (k : ℤ)) = .ok (.one k) := by
+    simp only [qlAxis, axisOfArg, n2]; rw [if_neg (by omega)]; simp
+  refine ⟨q1, q2, (C05_axis_int_depends_on_normalised len _ _ (n1.trans n2.symm) eps).1, ?_⟩
+  intro hr
+  have hin : AxisArg.inRange len (.one ((k : ℤ) - len)) = true := by
+    simp only [AxisArg.inRange, n1]; simp
+  unfold qlAxis at q1
+  simp only [qbAxis, hr, if_false, q1, hin, if_true]
+  cases eps <;> rfl
+
+/-- a list of valid axes in ANY spelling (every entry `k` or `k - rank`) resolves to the list of the axes themselves -/
+theorem C05_axes_from_end (len : ℕ) (ks : List ℕ) (hks : ∀ k ∈ ks, k < len) (fromEnd : ℕ → Bool) :
+    qlAxis len (.many (ks.map fun k => if fromEnd k then (k : ℤ) - len else (k : ℤ))) = .ok (.many ks) ∧
+    ∀ eps, qbAxis len (.many (ks.map fun k => if fromEnd k then (k : ℤ) - len else (k : ℤ))) eps
+      = qbAxis len (.many (ks.map fun k : ℕ => (k : ℤ))) eps := by
+  have hn : (ks.map fun k => if fromEnd k then (k : ℤ) - len else (k : ℤ)).map (normAxis len)
+      = (ks.map fun k : ℕ => (k : ℤ)).map (normAxis len) := by
+    simp only [List.map_map]
+    apply List.map_congr_left
+    intro k hk
+    obtain ⟨n1, n2⟩ := C05_norm_from_end len k (hks k hk)
+    simp only [Function.comp]
+    split_ifs
+    · rw [n1, n2]
+    · rfl
+  refine ⟨?_, fun eps => (C05_axis_list_depends_on_normalised len _ _ hn eps).1⟩
+  rw [(C05_axis_list_depends_on_normalised len _ _ hn .none).2]
+  simp only [qlAxis, axisOfArg]
+  congr 2
+  clear hn
+  induction ks with
+  | nil => rfl
+  | cons k t ih =>
+    have n2 := (C05_norm_from_end len k (hks k (by simp))).2
+    simp only [List.map_cons, List.filterMap_cons, n2]
+    rw [if_neg (by omega)]
+    try simp only [Int.toNat_natCast]
+    rw [ih (fun j hj => hks j (by simp [hj]))]
+
+/-- ONE scale per index of the scale axis: with the axis `k` (in either spelling) every other axis of the tensor is
+    reduced and `k` is not — the reduced axes never depend on the spelling -/
+theorem C05_from_end_reduced_axes (chLast : Bool) (len k : ℕ) (hk : k < len) (i : ℕ) :
+    i ∈ scalingAxis chLast (.one k) len ↔ (i < len ∧ i ≠ k) := by
+  simp only [scalingAxis, List.mem_append, List.mem_range, List.mem_filter, decide_eq_true_eq]
+  omega
+
+/-- a resolvable call at the argument level IS `qbAuto` of the resolved attributes (so `C05_code_times_scale`,
+    `C05_po2_scale`, `C05_auto_no_clip`, … apply to it), and it writes nothing back: the ARGUMENT stays on the object
+    (a negative axis stays negative), the frozen flag and a frozen scale are kept -/
+theorem C05_arg_call_is_auto (c : Fl) (o : QBArgObj) (ch : Bool) (shape : List ℕ) (x : List ℚ) (a : QBAttrs)
+    (ha : o.attrs.resolve shape.length = .ok a) :
+    (qbArgCall c o ch shape x).2 =
+      qbAuto c (a.cfg ch) ((⟨a, o.frozen, o.scale⟩ : QBObj).pts shape) shape x ∧
+    (qbArgCall c o ch shape x).1.attrs = o.attrs ∧ (qbArgCall c o ch shape x).1.frozen = o.frozen ∧
+    (o.frozen = true → (qbArgCall c o ch shape x).1.scale = o.scale) := by
+  have e : qbArgCall c o ch shape x =
+      ({ o with scale := (qbCall c ⟨a, o.frozen, o.scale⟩ ch shape x).1.scale },
+        (qbCall c ⟨a, o.frozen, o.scale⟩ ch shape x).2) := by
+    simp only [qbArgCall, ha]
+  rw [e]
+  exact ⟨rfl, rfl, rfl, fun h => (C05_call_keeps_attributes c ⟨a, o.frozen, o.scale⟩ ch shape x).2.2 h⟩
+
+/-- an axis that is no axis of the tensor (an int below `-rank`): the call raises and leaves the object as it was -/
+theorem C05_arg_call_unresolvable (c : Fl) (o : QBArgObj) (ch : Bool) (shape : List ℕ) (x : List ℚ) (e : Err)
+    (ha : o.attrs.resolve shape.length = .error e) : qbArgCall c o ch shape x = (o, .error e) := by
+  simp only [qbArgCall, ha]
+
+/-- the call depends on the argument attributes only through their resolution at the rank of the tensor (and on
+    the frozen flag / scale as before) -/
+theorem C05_arg_call_congr (c : Fl) (o o' : QBArgObj) (ch : Bool) (shape : List ℕ) (x : List ℚ)
+    (hr : o.attrs.resolve shape.length = o'.attrs.resolve shape.length) (hf : o.frozen = o'.frozen)
+    (hs : o.scale = o'.scale) :
+    (qbArgCall c o ch shape x).2 = (qbArgCall c o' ch shape x).2 ∧
+    (qbArgCall c o ch shape x).1.scale = (qbArgCall c o' ch shape x).1.scale := by
+  cases o with
+  | mk a1 f1 s1 =>
+    cases o' with
+    | mk a2 f2 s2 =>
+      simp only at hr hf hs
+      subst hf; subst hs
+      unfold qbArgCall
+      simp only [hr]
+      cases QBArgAttrs.resolve a2 shape.length <;> exact ⟨rfl, rfl⟩
+
+/-- THE family statement: `quantized_bits(..., scale_axis = k - rank)` and `quantized_bits(..., scale_axis = k)` are
+    the same function of the tensor (output, exposed scale), whatever the other options, frozen or not -/
+theorem C05_negative_axis_is_axis_from_end (c : Fl) (a : QBArgAttrs) (frozen : Bool) (sc : Option Stored)
+    (ch : Bool) (shape : List ℕ) (x : List ℚ) (k : ℕ) (hk : k < shape.length) :
+    (qbArgCall c ⟨{ a with sa := .one ((k : ℤ) - shape.length) }, frozen, sc⟩ ch shape x).2 =
+      (qbArgCall c ⟨{ a with sa := .one (k : ℤ) }, frozen, sc⟩ ch shape x).2 ∧
+    (qbArgCall c ⟨{ a with sa := .one ((k : ℤ) - shape.length) }, frozen, sc⟩ ch shape x).1.scale =
+      (qbArgCall c ⟨{ a with sa := .one (k : ℤ) }, frozen, sc⟩ ch shape x).1.scale := by
+  refine C05_arg_call_congr c ⟨_, frozen, sc⟩ ⟨_, frozen, sc⟩ ch shape x ?_ rfl rfl
+  simp only [QBArgAttrs.resolve, (C05_axis_from_end shape.length k hk a.eps).2.2.1]
+
+/-- the same for lists in any spelling -/
+theorem C05_negative_axes_are_axes_from_end (c : Fl) (a : QBArgAttrs) (frozen : Bool) (sc : Option Stored)
+    (ch : Bool) (shape : List ℕ) (x : List ℚ) (ks : List ℕ) (hks : ∀ k ∈ ks, k < shape.length)
+    (fromEnd : ℕ → Bool) :
+    (qbArgCall c ⟨{ a with sa := .many (ks.map fun k => if fromEnd k then (k : ℤ) - shape.length else (k : ℤ)) },
+        frozen, sc⟩ ch shape x).2 =
+      (qbArgCall c ⟨{ a with sa := .many (ks.map fun k : ℕ => (k : ℤ)) }, frozen, sc⟩ ch shape x).2 := by
+  have hr : QBArgAttrs.resolve
+        { a with sa := .many (ks.map fun k => if fromEnd k then (k : ℤ) - shape.length else (k : ℤ)) } shape.length
+      = QBArgAttrs.resolve { a with sa := .many (ks.map fun k : ℕ => (k : ℤ)) } shape.length := by
+    simp only [QBArgAttrs.resolve, (C05_axes_from_end shape.length ks hks fromEnd).2 a.eps]
+  exact (C05_arg_call_congr c ⟨_, frozen, sc⟩ ⟨_, frozen, sc⟩ ch shape x hr rfl rfl).1
+
+private theorem arg_call_fresh (c : Fl) (o : QBArgObj) (ch : Bool) (shape : List ℕ) (x : List ℚ) :
+    (qbArgCall c o ch shape x).2 =
+      (qbArgCall c { attrs := o.attrs, frozen := o.frozen, scale := if o.frozen then o.scale else none } ch shape x).2 := by
+  simp only [qbArgCall]
+  cases h : o.attrs.resolve shape.length with
+  | error e => rfl
+  | ok a =>
+    simp only
+    refine (C05_call_ignores_stored_scale c ⟨a, o.frozen, o.scale⟩
+      ⟨a, o.frozen, if o.frozen then o.scale else none⟩ rfl rfl ?_ ch shape x).1
+    intro hf
+    simp only at hf
+    simp [hf]
+
+private theorem arg_call_frame (c : Fl) (o : QBArgObj) (ch : Bool) (shape : List ℕ) (x : List ℚ) :
+    (qbArgCall c o ch shape x).1.attrs = o.attrs ∧ (qbArgCall c o ch shape x).1.frozen = o.frozen ∧
+    (o.frozen = true → (qbArgCall c o ch shape x).1.scale = o.scale) := by
+  cases h : o.attrs.resolve shape.length with
+  | error e => rw [C05_arg_call_unresolvable c o ch shape x e h]; exact ⟨rfl, rfl, fun _ => rfl⟩
+  | ok a => exact (C05_arg_call_is_auto c o ch shape x a h).2
+
+private theorem arg_export_is_call (c : Fl) (o : QBArgObj) (ch : Bool) (shape : List ℕ) (w : List ℚ) :
+    (qbArgExport c o ch shape w).1 = (qbArgCall c o ch shape w).1 ∧
+    (qbArgExport c o ch shape w).2.1 = (qbArgCall c o ch shape w).2 := by
+  simp only [qbArgExport, qbArgCall]
+  cases o.attrs.resolve shape.length with
+  | error e => exact ⟨rfl, rfl⟩
+  | ok a => exact ⟨rfl, rfl⟩
+
+/-- ANY history of calls and exports on one object at the argument level — the rank, hence the meaning of a negative
+    axis, changing from event to event; axes re-assigned in either spelling; calls that raise in between: every
+    result is the result of a fresh object carrying the argument attributes of the moment, the attributes after
+    every event are the assigned ARGUMENTS (nothing normalised is written back), frozen flag / scale invariant -/
+theorem C05_arg_history_fresh (c : Fl) (evs : List QBArgEvent) : ∀ o : QBArgObj,
+    (qbArgRunEv c o evs).map (fun r => r.2.1) =
+      qbArgFresh c o.frozen (if o.frozen then o.scale else none) o.attrs (evs.map QBArgEvent.step) ∧
+    (qbArgRunEv c o evs).map (fun r => r.1.attrs) = qbArgAttrsAfter o.attrs (evs.map QBArgEvent.step) ∧
+    ∀ r ∈ qbArgRunEv c o evs, r.1.frozen = o.frozen ∧ (o.frozen = true → r.1.scale = o.scale) := by
+  induction evs with
+  | nil => intro o; simp [qbArgRunEv, qbArgFresh, qbArgAttrsAfter]
+  | cons e t ih =>
+    intro o
+    -- both kinds of event are, for the object and the result, the one call
+    have key : ∀ s : QBArgStep, (e = .call s ∨ e = .save s) → ∃ ex,
+        qbArgRunEv c o (e :: t) =
+          ((qbArgCall c (o.reconf s.set) s.chLast s.shape s.x).1,
+            (qbArgCall c (o.reconf s.set) s.chLast s.shape s.x).2, ex) ::
+          qbArgRunEv c (qbArgCall c (o.reconf s.set) s.chLast s.shape s.x).1 t := by
+      intro s hs
+      rcases hs with rfl | rfl
+      · exact ⟨none, rfl⟩
+      · have h := arg_export_is_call c (o.reconf s.set) s.chLast s.shape s.x
+        refine ⟨(qbArgExport c (o.reconf s.set) s.chLast s.shape s.x).2.2, ?_⟩
+        simp only [qbArgRunEv]
+        rw [← h.1, ← h.2]
+    have hs : ∃ s, (e = .call s ∨ e = .save s) ∧ e.step = s := by
+      cases e with
+      | call s => exact ⟨s, Or.inl rfl, rfl⟩
+      | save s => exact ⟨s, Or.inr rfl, rfl⟩
+    obtain ⟨s, hes, hstep⟩ := hs
+    obtain ⟨ex, k0⟩ := key s hes
+    obtain ⟨h1, h2, h3⟩ := ih (qbArgCall c (o.reconf s.set) s.chLast s.shape s.x).1
+    have hk := arg_call_frame c (o.reconf s.set) s.chLast s.shape s.x
+    have hst : (if (qbArgCall c (o.reconf s.set) s.chLast s.shape s.x).1.frozen then
+          (qbArgCall c (o.reconf s.set) s.chLast s.shape s.x).1.scale else none) =
+        (if o.frozen then o.scale else none) := by
+      rw [hk.2.1]
+      show (if o.frozen then _ else none) = _
+      cases hf : o.frozen with
+      | false => simp
+      | true => simp only [if_true]; exact hk.2.2 hf
+    rw [k0]
+    refine ⟨?_, ?_, ?_⟩
+    · simp only [List.map_cons, hstep, qbArgFresh]
+      rw [h1, hst, hk.1, hk.2.1]
+      refine congrArg₂ _ ?_ rfl
+      exact arg_call_fresh c (o.reconf s.set) s.chLast s.shape s.x
+    · simp only [List.map_cons, hstep, qbArgAttrsAfter]
+      rw [h2, hk.1]; rfl
+    · intro r hr
+      simp only [List.mem_cons] at hr
+      rcases hr with rfl | hr
+      · exact ⟨hk.2.1, fun hf => hk.2.2 hf⟩
+      · obtain ⟨a, b⟩ := h3 r hr
+        refine ⟨a.trans hk.2.1, fun hf => ?_⟩
+        have hf' : (qbArgCall c (o.reconf s.set) s.chLast s.shape s.x).1.frozen = true := hk.2.1.trans hf
+        exact (b hf').trans (hk.2.2 hf)
+
+/-- quantized_linear at the argument level: a resolvable call IS `qlAuto` of the resolved attributes (every rank),
+    writes no attribute back; an unresolvable one raises and changes nothing -/
+theorem C05_linear_arg_call_is_auto (c : Fl) (o : QLArgObj) (ch : Bool) (shape : List ℕ) (x : List ℚ) :
+    (∀ a, o.attrs.resolve shape.length = .ok a →
+      (qlArgCall c o ch shape x).2 = .ok (qlAuto c (a.cfg ch) shape x)) ∧
+    (∀ e, o.attrs.resolve shape.length = .error e → qlArgCall c o ch shape x = (o, .error e)) ∧
+    (qlArgCall c o ch shape x).1.attrs = o.attrs := by
+  refine ⟨fun a ha => ?_, fun e he => ?_, ?_⟩
+  · simp only [qlArgCall, ha]; rfl
+  · simp only [qlArgCall, he]
+  · simp only [qlArgCall]
+    cases o.attrs.resolve shape.length <;> rfl
+
+/-- `quantized_linear(..., scale_axis = k - rank)` ≡ `quantized_linear(..., scale_axis = k)`, and lists in any spelling -/
+theorem C05_linear_negative_axis_is_axis_from_end (c : Fl) (a : QLArgAttrs) (qs qs' : Stored) (ch : Bool)
+    (shape : List ℕ) (x : List ℚ) :
+    (∀ k : ℕ, k < shape.length →
+      (qlArgCall c ⟨{ a with sa := .one ((k : ℤ) - shape.length) }, qs⟩ ch shape x).2 =
+        (qlArgCall c ⟨{ a with sa := .one (k : ℤ) }, qs'⟩ ch shape x).2) ∧
+    (∀ (ks : List ℕ) (fromEnd : ℕ → Bool), (∀ k ∈ ks, k < shape.length) →
+      (qlArgCall c ⟨{ a with sa := .many (ks.map fun k => if fromEnd k then (k : ℤ) - shape.length else (k : ℤ)) }, qs⟩
+          ch shape x).2 =
+        (qlArgCall c ⟨{ a with sa := .many (ks.map fun k : ℕ => (k : ℤ)) }, qs'⟩ ch shape x).2) := by
+  constructor
+  · intro k hk
+    obtain ⟨q1, q2, _⟩ := C05_axis_from_end shape.length k hk .none
+    simp only [qlArgCall, QLArgAttrs.resolve, q1, q2]
+    rfl
+  · intro ks fromEnd hks
+    have q1 := (C05_axes_from_end shape.length ks hks fromEnd).1
+    have q2 := (C05_axes_from_end shape.length ks hks (fun _ => false)).1
+    simp only [Bool.false_eq_true, if_false] at q2
+    simp only [qlArgCall, QLArgAttrs.resolve, q1, q2]
+    rfl
+
+/-- quantized_linear, any history at the argument level = fresh objects (whatever scale they start with) -/
+theorem C05_linear_arg_history_fresh (c : Fl) (qs0 : Stored) (steps : List QLArgStep) : ∀ o : QLArgObj,
+    (qlArgRun c o steps).map (·.2) = qlArgFresh c qs0 o.attrs steps ∧
+    (qlArgRun c o steps).map (·.1.attrs) = qlArgAttrsAfter o.attrs steps := by
+  induction steps with
+  | nil => intro o; simp [qlArgRun, qlArgFresh, qlArgAttrsAfter]
+  | cons s t ih =>
+    intro o
+    obtain ⟨h1, h2⟩ := ih (qlArgCall c (o.reconf s.set) s.chLast s.shape s.x).1
+    have ha := (C05_linear_arg_call_is_auto c (o.reconf s.set) s.chLast s.shape s.x).2.2
+    refine ⟨?_, ?_⟩
+    · simp only [qlArgRun, List.map_cons, qlArgFresh]
+      rw [h1, ha]
+      refine congrArg₂ _ ?_ rfl
+      simp only [qlArgCall, QLArgObj.reconf]
+      cases (s.set.getD o.attrs).resolve s.shape.length <;> rfl
+    · simp only [qlArgRun, List.map_cons, qlArgAttrsAfter]
+      rw [h2, ha]; rfl
+
+
 /-! ### non-vacuity -/
 
 example : ∃ es, qbAuto (Fl.exact (1/10000000)) ⟨4, 0, true, false, ⟨true, .none, .none⟩, none, none⟩ none [2, 2]
@@ -595,5 +917,16 @@ example : let o : QBObj := ⟨⟨4, 1, true, true, .none, .none, none, none⟩, 
     let r := qbRunEv (Fl.exact (1/10000000)) o [.call s, .save s, .call s]
     (r.map fun t => t.2.1.toOption.isSome) = [true, true, true] ∧
     (r.map fun t => t.1.scale.map (·.vals)) = [some [2, 1], some [2, 1], some [2, 1]] := by decide
+
+/-- a history on ONE object with `scale_axis = -2`: a rank-2 tensor (axis 0), then a rank-3 tensor (axis 1); both
+    calls succeed, equal the calls with the axes written from the start, and the argument stays `-2` -/
+example : let o : QBArgObj := ⟨⟨4, 0, true, false, .one (-2), .none, none, none⟩, false, none⟩
+    let s1 : QBArgStep := ⟨none, true, [2, 2], [0, 1/2, 3, -1]⟩
+    let s2 : QBArgStep := ⟨none, true, [1, 2, 2], [1, 1/2, 3, -1]⟩
+    let r := qbArgRunEv (Fl.exact (1/10000000)) o [.call s1, .call s2]
+    (r.map fun t => t.2.1.toOption.isSome) = [true, true] ∧
+    (r.map fun t => t.1.attrs.sa) = [.one (-2), .one (-2)] := by decide
+example : qbAxis 3 (.many [0, -1]) (.one 2) = .ok (.many [0, 2]) ∧ qlAxis 1 (.one (-1)) = .ok (.one 0) ∧
+    qbAxis 2 (.one (-3)) .none = .error .valueError := by decide
 
 end QKV.Props.C05
